@@ -579,10 +579,13 @@ func check(c *core.Case, v Val) {
 	switch v.Kind {
 	case "iq", "message", "presence":
 		checkStanza(c, v)
+		checkSnapshotStanza(c, v)
 	case "stanza-error":
 		checkStanzaError(c, v)
+		checkSnapshotStanzaError(c, v)
 	case "stream-error":
 		checkStreamError(c, v)
+		checkSnapshotStreamError(c, v)
 	}
 	c.Sig("%s", fieldsMask(v))
 }
@@ -1177,7 +1180,8 @@ func Prop() *core.Prop {
 		"replies_with_distinct_addresses", "interleave_scenarios", "interleaved_readers_built_before_consumption",
 		"interleaved_three_readers", "interleaved_partial_then_build", "interleaved_encodexml_nested",
 		"interleaved_values_beyond_4k", "interleaved_outputs_agree",
-		"attribute_sets_compared", "composite_attribute_sets_agree_two_attr_namespaces"}
+		"attribute_sets_compared", "composite_attribute_sets_agree_two_attr_namespaces",
+		"snapshot_checks", "snapshot_text_map_mutated", "snapshot_reused_decode_target", "snapshot_stanza_helpers", "snapshot_stream_error"}
 	for _, k := range []string{"iq", "message", "presence"} {
 		for _, n := range []string{"none", "client", "server"} {
 			req = append(req, k+"_ns_"+n)
@@ -1186,7 +1190,7 @@ func Prop() *core.Prop {
 	return &core.Prop{
 		ID:    "C13",
 		Level: core.Exploration,
-		Rule:  "values are PRNG-drawn IQ/Message/Presence (every defined type constant, XMLName namespace none/client/server, ids and language tags from pools of empty, ASCII, XML-special, non-ASCII and control-adjacent text, addresses that survive Parse(String()) incl. resourceparts with <>&'\"), stanza.Error (every type x defined condition, by, 0-3 texts in distinct languages incl. empty data, optional application condition) and stream.Error (every defined condition, see-other-host content, 0-3 texts with repeated languages, optional application error). Each value is encoded by xml.Marshal, TokenReader/WriteXML/Wrap, internal/marshal.TokenReader and internal/marshal.EncodeXML; each output must parse strictly (W), decode to the same value as xml.Marshal's (A) and to a value equivalent to the original (R); Wrap/Result/Error are checked on the token level (frame, start element, payload tokens unchanged, to/from swapped), UnmarshalError/UnmarshalIQError read the Error helpers back, New*(v.StartElement()) must equal v. The internal/marshal outputs must also carry exactly the attributes of the xml.Marshal output after parsing (the composite payload has a plain attribute followed by one in a namespace of its own, another plain one, one in a second attribute namespace, and children whose namespaced attribute comes first), and no namespace declaration may survive as an ordinary attribute. For half of the stanza values the interleaved-readers law (I) is also run on the internal/marshal paths: the marshal.TokenReader readers of two or three different values (bare stanzas and stanzas with payload, a third padded beyond 4 KiB) are built first and consumed token by token in PRNG order, or one is partly consumed, another built, then both finished, or marshal.EncodeXML of one value is interrupted after its k-th token by a complete EncodeXML of another into a second encoder; every output must still decode to what xml.Marshal of its own value decodes to. 5% of values carry characters XML cannot represent and are judged for W and A only. distinct = (kind, namespace, type, class of every text field, payload count).",
+		Rule:  "values are PRNG-drawn IQ/Message/Presence (every defined type constant, XMLName namespace none/client/server, ids and language tags from pools of empty, ASCII, XML-special, non-ASCII and control-adjacent text, addresses that survive Parse(String()) incl. resourceparts with <>&'\"), stanza.Error (every type x defined condition, by, 0-3 texts in distinct languages incl. empty data, optional application condition) and stream.Error (every defined condition, see-other-host content, 0-3 texts with repeated languages, optional application error). Each value is encoded by xml.Marshal, TokenReader/WriteXML/Wrap, internal/marshal.TokenReader and internal/marshal.EncodeXML; each output must parse strictly (W), decode to the same value as xml.Marshal's (A) and to a value equivalent to the original (R); Wrap/Result/Error are checked on the token level (frame, start element, payload tokens unchanged, to/from swapped), UnmarshalError/UnmarshalIQError read the Error helpers back, New*(v.StartElement()) must equal v. The internal/marshal outputs must also carry exactly the attributes of the xml.Marshal output after parsing (the composite payload has a plain attribute followed by one in a namespace of its own, another plain one, one in a second attribute namespace, and children whose namespaced attribute comes first), and no namespace declaration may survive as an ordinary attribute. Snapshot law (S): for every TokenReader/Wrap/Error constructor of the core types the reader is built, then everything the caller can still reach is changed (entries of a stanza error's Text map changed, emptied, deleted and added; elements of a stream error's Text slice; the fields of the variable; or the variable is reused as a decode target, which fills its Text map in place), then the reader is consumed: its tokens must equal those of a reader built from a deep copy and consumed at once. For half of the stanza values the interleaved-readers law (I) is also run on the internal/marshal paths: the marshal.TokenReader readers of two or three different values (bare stanzas and stanzas with payload, a third padded beyond 4 KiB) are built first and consumed token by token in PRNG order, or one is partly consumed, another built, then both finished, or marshal.EncodeXML of one value is interrupted after its k-th token by a complete EncodeXML of another into a second encoder; every output must still decode to what xml.Marshal of its own value decodes to. 5% of values carry characters XML cannot represent and are judged for W and A only. distinct = (kind, namespace, type, class of every text field, payload count).",
 		Assumptions: []string{
 			"equivalence ignores XMLName as filled in by decoding, nil versus empty text collections, and stanza-error text entries with empty data (documented as omitted by the encoder)",
 			"encoding/xml ignores the value of an XMLName field when the struct tag names the element, so xml.Marshal of a stanza cannot carry XMLName.Space; this is counted (xmlname_space_not_carried_by_struct_tags), not judged; the namespace is judged on the Wrap/StartElement path",
